@@ -761,6 +761,7 @@ type pipeWriter struct {
 	failAfter int // > 0: the writer fails at its failAfter+1st call (the peer went away)
 	calls     int
 	full      func() bool // the ring has no room for another read block (ReadFrom is blocked for space)
+	slow      bool
 }
 
 func (w *pipeWriter) Write(p []byte) (int, error) {
@@ -773,12 +774,22 @@ func (w *pipeWriter) Write(p []byte) (int, error) {
 		time.Sleep(200 * time.Microsecond)
 		return 0, io.ErrClosedPipe
 	}
+	if w.slow && w.calls%2 == 0 {
+		time.Sleep(150 * time.Microsecond)
+	}
 	w.got = append(w.got, p...)
 	return len(p), nil
 }
 
 // free-running ReadFrom / WriteTo on a fresh ring (no scheduler)
 func ringPipe(total int64, chunk int, failAfter int) string {
+	// chunk >= 100000 encodes "slow writer" plus the burst size chunk % 100000 (which may exceed
+	// one read block): a lagging consumer and a reader that delivers as much as it is offered
+	slow := false
+	if chunk >= 100000 {
+		slow = true
+		chunk %= 100000
+	}
 	b, err := service.VerifNewBuffer(16384)
 	if err != nil {
 		panic(err)
@@ -788,7 +799,7 @@ func ringPipe(total int64, chunk int, failAfter int) string {
 		err error
 	}
 	rf, wt := make(chan rr, 1), make(chan rr, 1)
-	w := &pipeWriter{failAfter: failAfter}
+	w := &pipeWriter{failAfter: failAfter, slow: slow}
 	w.full = func() bool { return int64(b.Len()) > b.VerifSize()-8192 }
 	go func() { n, err := b.ReadFrom(&pipeReader{total: total, chunk: chunk}); rf <- rr{n, err} }()
 	go func() { n, err := b.WriteTo(w); wt <- rr{n, err} }()
@@ -1365,6 +1376,9 @@ func genRingSoak(seed int64, n int, tier string, w *bufio.Writer) {
 		}
 		if r.Intn(4) == 0 {
 			g.emit("pipe %d %d", 1+r.Intn(200000), 1+r.Intn(9000))
+		}
+		if r.Intn(5) == 0 { // lagging consumer, reader bursts larger than one read block
+			g.emit("pipe %d %d", 60000+r.Intn(200000), 100000+pick(r, []int{8193, 9000, 12000, 16384, 20000}))
 		}
 		if r.Intn(6) == 0 { // the peer goes away while the reader side is blocked for space (DESIGN 9.F2)
 			g.emit("pipe %d %d %d", 40000+r.Intn(100000), 1+r.Intn(9000), 1+r.Intn(3))
